@@ -265,7 +265,74 @@ func (w *World) groundInfoModel() (fc *FuncCtx) {
 		fc.obligeAt(st, "ground.elementsfile", site+".builtin", b2s(inBuiltin), "scripts/ipfix.elements", fmt.Sprintf("file element %d/%d (%s) exists in the built-in table", k[0], k[1], fe.name))
 		fc.obligeAt(st, "ground.elementsfile", site+".type", b2s(fe.typeOK), "scripts/ipfix.elements", fmt.Sprintf("file element %d/%d (%s): type name %q is a key of FieldTypes", k[0], k[1], fe.name, fe.typeName))
 	}
+	// the two tables are written nowhere else: InfoModel only by its declaration and by LoadExtElements, FieldTypes
+	// only by its declaration (an init function or another package adding entries would make the literal above stale)
 	fc.groundTest = ""
+	for _, tbl := range []string{"InfoModel", "FieldTypes"} {
+		tv, _ := pkg.Types.Scope().Lookup(tbl).(*types.Var)
+		if tv == nil {
+			continue
+		}
+		where := ""
+		for _, p := range w.Pkgs {
+			for _, f := range p.Syntax {
+				for _, d := range f.Decls {
+					fd, ok := d.(*ast.FuncDecl)
+					if !ok || fd.Body == nil {
+						continue
+					}
+					if tbl == "InfoModel" && p == pkg && fd.Name.Name == "LoadExtElements" && fd.Recv == nil {
+						continue
+					}
+					isTbl := func(e ast.Expr) bool {
+						for {
+							switch x := e.(type) {
+							case *ast.ParenExpr:
+								e = x.X
+								continue
+							case *ast.IndexExpr:
+								e = x.X
+								continue
+							case *ast.Ident:
+								return p.TypesInfo.Uses[x] == tv
+							case *ast.SelectorExpr:
+								return p.TypesInfo.Uses[x.Sel] == tv
+							}
+							return false
+						}
+					}
+					ast.Inspect(fd.Body, func(n ast.Node) bool {
+						switch x := n.(type) {
+						case *ast.AssignStmt:
+							for _, l := range x.Lhs {
+								if isTbl(l) {
+									where = shortPath(w.Fset.Position(x.Pos()).String())
+								}
+							}
+						case *ast.CallExpr:
+							if id, ok := x.Fun.(*ast.Ident); ok && id.Name == "delete" && len(x.Args) > 0 && isTbl(x.Args[0]) {
+								where = shortPath(w.Fset.Position(x.Pos()).String())
+							}
+						case *ast.UnaryExpr:
+							if x.Op == token.AND && isTbl(x.X) {
+								where = shortPath(w.Fset.Position(x.Pos()).String())
+							}
+						}
+						return true
+					})
+				}
+			}
+		}
+		goal, text := "true", "ipfix."+tbl+" is written only by its declaration"
+		if tbl == "InfoModel" {
+			text += " and by LoadExtElements"
+		}
+		if where != "" {
+			goal = "false"
+			text += "; written at " + where
+		}
+		fc.obligeAt(st, "ground.infomodel", "onlywriter."+tbl, goal, "ipfix/rfc5102_model.go", text)
+	}
 	fc.obligeAt(st, "ground.infomodel", "count", eq(strconv.Itoa(len(entries)), strconv.Itoa(len(fileModel))), "ipfix/rfc5102_model.go", fmt.Sprintf("built-in table (%d entries) and shipped file (%d entries) have the same size", len(entries), len(fileModel)))
 	return fc
 }
